@@ -375,6 +375,100 @@ def spectrum_part(ctx):
     ctx.notes["spectrum_large_traces"] = sum(1 for r in recs if r["large"])
 
 
+# ---------------------------------------------------------------------------
+# magnitudes: rarely visited states (populations of 1e-5 .. 1e-7) in fit and in the save / load round trip
+
+RARE_SETS = ["<< <<<<0, 1>>, 600000>>, <<<<0, 0, 1>>, 400000>>, <<<<2, 0, 1, 1>>, 12>> >>",
+             "<< <<<<0, 1>>, 1048577>>, <<<<0, 2, 2, 1, 0>>, 7>>, <<<<1>>, 70001>> >>",
+             "<< <<<<0, 0, 1>>, 90000>>, <<<<0, 2, 2, 1, 0>>, 5>> >>"]
+
+
+def rare_case(c):
+    """one data set of CountsPeriodic.tla (closed-form counts, emitted by TLC): MSM(lag, method, trim=False).fit, then
+    the counts / probabilities / populations against the emitted counts (transpose: sym/2, sym/rowsum, rowsum/total in
+    exact fractions; normalize: C, C/rowsum), then save -> load bit for bit"""
+    from fractions import Fraction
+    from enspara import ra
+    from enspara.msm import MSM, builders
+    rows = [np.tile(np.array(p, dtype=np.int64), L // len(p) + 1)[:L] for p, L in c["trajs"]]
+    C = [[int(x) for x in r] for r in c["C"]]
+    n = len(C)
+    bad = []
+    for mname in ("transpose", "normalize"):
+        m = MSM(lag_time=c["lag"], method=getattr(builders, mname), trim=False, sliding_window=bool(c["sliding"]),
+                max_n_states=c["S"])
+        try:
+            with warnings.catch_warnings():
+                warnings.simplefilter("ignore")
+                m.fit(ra.RaggedArray(rows))
+        except Exception as ex:
+            bad.append(("MSM.fit/rare-states/raises", {"method": mname, "error": type(ex).__name__ + ": " + str(ex)[:200]}))
+            continue
+        W = [[Fraction(C[i][j] + C[j][i], 2) if mname == "transpose" else Fraction(C[i][j]) for j in range(n)] for i in range(n)]
+        rs = [sum(r) for r in W]
+        if min(rs) == 0:
+            continue
+        T = np.array([[float(W[i][j] / rs[i]) for j in range(n)] for i in range(n)])
+        got = dict(counts=_dense(m.tcounts_), tprobs=_dense(m.tprobs_), eq=np.asarray(m.eq_probs_, dtype=float))
+        if not np.array_equal(got["counts"], np.array([[float(x) for x in r] for r in W])):
+            bad.append(("MSM.fit/rare-states/tcounts", {"method": mname, "got": got["counts"].tolist()}))
+        if got["tprobs"].shape != T.shape or not np.allclose(got["tprobs"], T, rtol=1e-13, atol=0):
+            bad.append(("MSM.fit/rare-states/tprobs", {"method": mname, "got": got["tprobs"].tolist(), "expected": T.tolist()}))
+        if mname == "transpose":
+            pe = np.array([float(r / sum(rs)) for r in rs])
+            if got["eq"].shape != pe.shape or not np.allclose(got["eq"], pe, rtol=1e-13, atol=0):
+                bad.append(("MSM.fit/rare-states/eq_probs", {"got": got["eq"].tolist(), "expected": pe.tolist()}))
+        d = tempfile.mkdtemp(prefix="ev_msm_")
+        try:
+            path = os.path.join(d, "model")
+            m.save(path)
+            m2 = MSM.load(path)
+            same = dict(counts=np.array_equal(_dense(m2.tcounts_), got["counts"]),
+                        tprobs=np.array_equal(_dense(m2.tprobs_), got["tprobs"]),
+                        eq=np.array_equal(np.asarray(m2.eq_probs_, dtype=float).reshape(-1), got["eq"].reshape(-1)),
+                        mapping=dict(m2.mapping_.to_original) == dict(m.mapping_.to_original),
+                        eq_operator=bool(m2 == m))
+            if not all(same.values()):
+                bad.append(("MSM.save-load/rare-states/" + ",".join(k for k, v in same.items() if not v),
+                            {"method": mname, "same": same, "eq_probs_in_memory": got["eq"].tolist(),
+                             "eq_probs_loaded": np.asarray(m2.eq_probs_, dtype=float).tolist()}))
+        except Exception as ex:
+            bad.append(("MSM.save-load/rare-states/raises", {"error": type(ex).__name__ + ": " + str(ex)[:200]}))
+        finally:
+            shutil.rmtree(d, ignore_errors=True)
+    return bad
+
+
+def rare_part(ctx, d):
+    from props import c03
+    with open(os.path.join(d, "MC_CountsPeriodic.tla"), "w") as fh:
+        fh.write("---- MODULE MC_CountsPeriodic ----\nEXTENDS CountsPeriodic\nPatsDef == %s\nBigDef == {%s}\n"
+                 "SmallDef == 0..2\nLagsDef == {1, 3}\n====\n" % (c03.PATS, ", ".join(RARE_SETS)))
+    pc = dict(Pats="<- PatsDef", S="3", SmallLens="<- SmallDef", BigSets="<- BigDef", Lags="<- LagsDef")
+    cfg = core.write_cfg(os.path.join(d, "rare.cfg"), init="InitBig", constants=dict(pc, Emit="TRUE"),
+                         invariants=["EmitInv", "TotalLaw"])
+    r = ctx.tlc("MC_CountsPeriodic", os.path.basename(cfg), d, label="CountsPeriodic: data sets with rarely visited states",
+                workers=1)
+    cases = [p for t, p in r.prints if t == "CASE"]
+    if not cases:
+        raise core.MachineryError("no CASE lines from CountsPeriodic (rare states)")
+    out = core.pmap(rare_case, cases, chunk=1)
+    smallest = 1.0
+    for c, bad in zip(cases, out):
+        tot = sum(sum(r_) for r_ in c["C"])
+        rsum = [sum(r_) + sum(c["C"][j][i] for j in range(len(c["C"]))) for i, r_ in enumerate(c["C"])]
+        if tot and min(rsum) > 0:
+            smallest = min(smallest, min(rsum) / (2.0 * tot))
+        ctx.case(("rare", str(c["trajs"]), c["lag"], c["sliding"]))
+        ctx.traces += 1
+        for key, detail in bad:
+            ctx.violation({"kind": "replay", "case": {k: v for k, v in c.items() if k != "C"}, "counts": c["C"], "detail": detail,
+                           "how": "MSM(method, trim=False).fit / save / load on the periodic data set of CountsPeriodic.tla"},
+                          key=key)
+    ctx.notes["rare_state_cases"] = len(cases)
+    ctx.notes["rare_state_smallest_population"] = smallest
+
+
 def run(ctx):
     ctx.rule = ("part 1: TLC enumerates every assignment set (<=MaxT trajectories of length 1..MaxLen over S states) x "
                 "lag x builder x trim x sliding x max_n_states; non-trivial = at least one lagged pair; part 2: every "
@@ -412,6 +506,7 @@ def run(ctx):
             ctx.traces += 1
             for key, detail in bad:
                 ctx.violation({"kind": "replay", "case": c, "detail": detail, "how": "MSM object vs MSMObj.tla"}, key=key)
+    rare_part(ctx, d)
     spectrum_part(ctx)
     # growth beyond the listed property: the TrimMapping object and the life cycle of the estimator (construction,
     # set_params, refit, save / load, equality) -- specs/msm/TrimMapping.tla, MSMLife.tla
